@@ -16,10 +16,21 @@ SPEC = {
         # COPYUID pairing for a non-ascending message set (cause=copyuid-pairing; fixed in /repo by 071c9b5, kept as
         # regression test), copyuid-stale-move = MOVE of a message
         # another session has expunged (cause=copyuid-length-mismatch), rename-onto-used = RENAME onto a
-        # name that carried a greater UIDVALIDITY before (cause=uidvalidity-regress-rename-onto-used-name).
+        # name that carried a greater UIDVALIDITY before (cause=uidvalidity-regress-rename-onto-used-name), rollback-told =
+        # a rolled-back APPEND / COPY while another session has the mailbox selected (nobody may have been told its UID).
+        # Then (all on by default, flags -fixtures / -race):
+        #  * upgrade fixtures corpus/C04/fixtures/<name>/ (o_uids_fixture.go): database + store directories written by an
+        #    earlier /repo HEAD (schema version recorded), opened by the tree under test - its migrations run -, compared by
+        #    the judge with the observation log their writer recorded, then continued (APPEND into every mailbox, generated
+        #    steps, restart);
+        #  * schedule control inside one command (o_uids_race.go): for SELECT / EXAMINE / STATUS / APPEND / COPY / MOVE a
+        #    second party's UID-assigning operation (another session's APPEND or COPY, connector MessageCreated /
+        #    MessagesCreated) is run at EVERY database-call boundary of the command (recorded first); the command's own
+        #    response is judged for internal consistency (causes select-uidnext-not-above-view,
+        #    status-uidnext-not-above-counted, ...).
         {"name": "c04uids",
-         "quick_args": ["-n", "60", "-par", "16", "-directed", "uidv-restart,copyuid-order,copyuid-stale-move,rename-onto-used"],
-         "thorough_args": ["-n", "2000", "-par", "24", "-directed", "uidv-restart,copyuid-order,copyuid-stale-move,rename-onto-used"],
+         "quick_args": ["-n", "60", "-par", "16", "-directed", "uidv-restart,copyuid-order,copyuid-stale-move,rename-onto-used,rollback-told"],
+         "thorough_args": ["-n", "2000", "-par", "24", "-directed", "uidv-restart,copyuid-order,copyuid-stale-move,rename-onto-used,rollback-told"],
          "timeout": 2400},
     ],
     "trusted_base": [
@@ -27,6 +38,17 @@ SPEC = {
         "hand-written model GluonModel/Model/UidValidity.lean of imap.EpochUIDValidityGenerator.Generate (clock reading = input, lastUID = state, restart = fresh generator), tied to the real generator by the real-time relational oracle uidv-rel: every result must equal the model's generate(now,last) for some clock reading now between the readings taken before and after the call (differential testing, not proof)",
         "hand-written model GluonModel/Model/UidSeq.lean of SQLite AUTOINCREMENT UID assignment (model only at this level; its tie to the real database is C08's component correspondence and the wire oracle)",
         "float->uint64 conversion of a negative elapsed time is modelled as on amd64 (two's complement); exercised by the oracle with epochs in the future",
+        "upgrade fixtures corpus/C04/fixtures/*: DATA committed under /verif (database, message store and expect.txt with the "
+        "writer's observation log), written once by `vh oracle c04uids -mkfixture` built against the /repo HEAD named in "
+        "expect.txt (written-by, schema = gluon_version as RunMigrations reads it); user id 'c04-fixture-user' and store "
+        "passphrase 'passphrase' are fixed in the recipe; the check trusts that these files are what that HEAD wrote (the "
+        "generator refuses to write a fixture whose own history the judge does not accept) and never regenerates them",
+        "schedule control (o_uids_race.go): the wrapper c04Client around the real db.Client (gluon.WithDBClient) counts "
+        "top-level Read/Write calls and parks the server goroutine between two of them while the second party runs; it "
+        "relies on the SQLite client taking its lock per call (no lock is held at a boundary)",
+        "facts translator harness/facts_c04mig.go (go/ast): migrationList of internal/db_impl/sqlite3/migrations.go and, per "
+        "migration package, whether its source mentions the per-mailbox message tables / DROP TABLE, RENAME TO, "
+        "sqlite_sequence / Generate()",
         "wire oracle c04uids: the Go harness (o_uids.go) that drives the server, parses IMAP responses into the observation log and schedules one step at a time (connector flushed + every session caught up after each step); the verdict on the log is computed by the Lean spec GluonModel/Spec/UidHistory.lean (hand-written, executable; it reuses UidSeq.applyOps/uidNext and UidV.strictlyIncreasing), not by Go",
     ],
     "assumptions": [
@@ -34,7 +56,18 @@ SPEC = {
         "concurrent Generate calls are modelled by their linearisation at the successful CAS (argument in Model/UidValidity.lean, not formalised); the oracle runs concurrent calls and requires a sequential explanation of the sorted results",
         "a wall clock that steps backwards is covered by the theorems (clock readings are arbitrary) but cannot be produced by the real-time oracle",
         "uid_fresh / uidnext_gt_all / uidnext_mono speak about the AUTOINCREMENT model; that every announced UID stems from a committed transaction (announce-after-commit) and the APPENDUID/COPYUID values are checked at wire level by the oracle c04uids, which also checks the model's predictions on the real server (n additions get exactly the UIDs UidSeq.applyOps hands out, UIDNEXT = UidSeq.uidNext, a transaction rolled back after it ran leaves no trace) - sampled histories, not proof",
+        "a restart in the generated histories reopens the database with the code that wrote it; the restart that is an "
+        "UPGRADE is covered by the committed fixtures only (schema 3 -> current; three recipes: tops expunged / emptied / "
+        "moved away, renamed and re-created names, bumped UIDVALIDITY), on the real code, and by the obligations "
+        "migrations_reviewed / migrations_keep_uid_tables (shallow source facts); theorems rebuild_copy_* state what a "
+        "table rebuild does to the AUTOINCREMENT model. After a fixture is opened the connector is a fresh dummy that "
+        "accepts operations on messages it has never seen",
+        "raced commands: the second party runs to completion at ONE boundary between two database calls of the command "
+        "(every boundary is tried, with another session's APPEND / COPY and connector MessageCreated / MessagesCreated); "
+        "interleavings inside a database call do not exist (per-call lock) and two second parties at two boundaries of the "
+        "same command are not tried; a raced response is judged for internal consistency and against lower bounds only "
+        "(its UIDNEXT may be larger than the view needs)",
         "c04uids: generated histories wait for the generator clock to pass every UIDVALIDITY seen so far before the first creation after a restart (step X CLOCKWAIT = the named hypothesis ClockAhead), let a session catch up (NOOP) before it copies or moves, and never rename onto a name that carried a greater UIDVALIDITY, so that they stay quiet about the directed findings and are judged to their end; restarts are clean closes (optionally with client connections cut) and reopen on the same directories; process kills are C07's oracle",
     ],
-    "explanation": "Lean theorems: Generate results strictly increase within a process for every clock sequence (incl. backwards clocks and the uint32 ceiling, where it fails instead of wrapping); across restarts only under ClockAhead, with a decide-checked witness that the hypothesis is needed; AUTOINCREMENT UIDs are fresh and UIDNEXT monotone over all histories of committed/rolled-back transactions. The real EpochUIDValidityGenerator is run in real time (bursts, restarts, second boundaries, concurrent calls, epochs at 0 / 2^31 / 2^32 / in the future) and judged against the model by the Lean judge. At wire level whole-server histories (APPEND, COPY/MOVE, expunge of the highest UID or of everything followed by additions, failing and rolled-back commands, connector-driven additions, DELETE+CREATE, RENAME, UIDVALIDITY bump, restarts) are logged and a Lean judge checks that (name, uidvalidity, uid) -> message is a function, UIDs are fresh, UIDNEXT is above every UID assigned and monotone, APPENDUID/COPYUID UIDs hold the announced messages, and UIDVALIDITY per name strictly increases.",
+    "explanation": "Lean theorems: Generate results strictly increase within a process for every clock sequence (incl. backwards clocks and the uint32 ceiling, where it fails instead of wrapping); across restarts only under ClockAhead, with a decide-checked witness that the hypothesis is needed; AUTOINCREMENT UIDs are fresh and UIDNEXT monotone over all histories of committed/rolled-back transactions. The real EpochUIDValidityGenerator is run in real time (bursts, restarts, second boundaries, concurrent calls, epochs at 0 / 2^31 / 2^32 / in the future) and judged against the model by the Lean judge. At wire level whole-server histories (APPEND, COPY/MOVE, expunge of the highest UID or of everything followed by additions, failing and rolled-back commands, connector-driven additions, DELETE+CREATE, RENAME, UIDVALIDITY bump, restarts) are logged and a Lean judge checks that (name, uidvalidity, uid) -> message is a function, UIDs are fresh, UIDNEXT is above every UID assigned and monotone, APPENDUID/COPYUID UIDs hold the announced messages, and UIDVALIDITY per name strictly increases. Upgrade fixtures written by an earlier HEAD are opened by the tree under test and their recorded history is continued; SELECT/EXAMINE/STATUS/APPEND/COPY/MOVE are raced with a second party's addition at every database-call boundary and the response is checked against the view it opened (UIDNEXT above every UID of the EXISTS messages shown). The list of schema migrations is a regenerated fact with two obligations (reviewed list; no rebuild of the UID tables under the same UIDVALIDITY), and the model states what a table rebuild by copy does to UIDNEXT (rebuild_copy_*).",
 }
